@@ -94,13 +94,13 @@ PROPS = {
  "C08": P("C08", tie="Iota.Tie.Slip10",
    rule="ops: slip10.shift on secp256k1 and P-256: random scalars 0<k<n (also 1 and n-1) x shifts {0, k, n-k, n-k+1, n-1, n, n+1, 2^256-1, 1, random}, private side vs public side with panics recovered; "
         "slip10.pubderive: child of the private key made public vs child of the public key (key bytes, chain code, fingerprint) for random parents and non-hardened indices",
-   assumptions=["the curve operations form a cyclic group of order n generated by the base point (hypothesis LawfulW; for secp256k1 the group law of the code is C17, the group order is assumed)"],
+   assumptions=["NIST P-256 only: crypto/elliptic's operations form a cyclic group of order n generated by the base point (hypothesis LawfulW). For secp256k1 the hypothesis is discharged (C17 + N prime + [N]G = 0): shift_commutes_secp256k1 is unconditional"],
    trusted_base=["crypto/elliptic P-256 (external)"]),
  "C17": P("C17",
    rule="ops: secp.add, secp.double, secp.mul, secp.basemul, secp.oncurve on btccurve.Secp256k1(): random pairs, P=Q, P=-Q, identity on either side and both, scalars 0, 1, 2, n-1, n, n+1, 2n, 2^256-1, n/2, with leading zero bytes, "
         "lengths 0..40, multiples of the identity; IsOnCurve on curve points, near misses and (0,0)",
-   assumptions=["P = 2^256 - 2^32 - 977 is prime (hypothesis Fact (Nat.Prime P) of every theorem)"],
-   trusted_base=["Mathlib's elliptic-curve group law (WeierstrassCurve.Affine.Point)", "math/big modelled on Int"]),
+   assumptions=["none about the curve: P and N prime and ord(G) = N are theorems (Pratt certificates, kernel-evaluated [N]G = 0)"],
+   trusted_base=["Mathlib's elliptic-curve group law (WeierstrassCurve.Affine.Point) and lucas_primality", "math/big modelled on Int"]),
  "C13": P("C13", race=True,
    rule="ops: mine.trace = one recorded execution of the real Mine (hook events spawn / batch / saw-done / store / send / wg.Done / Wait returned / close / recv / watcher arms / cancel, with the result), replayed by the Lean validator "
         "against the transition system (every event must be an enabled step, the run must end in `returned` with the reported result); mine.runtime = goroutines alive 200 ms after return, time from cancel() to return, unexpected errors "
@@ -126,7 +126,7 @@ PROPS = {
  "C18": P("C18", tie="Iota.Tie.Ed",
    rule="ops: vrf.prove (proof bytes, Proof.Hash, ProofToHash), vrf.verify (verdict and hash), vrf.setbytes (decode then re-encode). Random seeds x alphas incl. empty and long, alphas found by search to need 2..5 try-and-increment rounds; each proof: wrong alpha, "
         "every bit flip (quick: sample), s >= L, lengths 79/81, Gamma or key replaced by each non-canonical / small-order encoding; random 80-byte strings. The Lean side is an independent ECVRF-EDWARDS25519-SHA512-TAI over a from-scratch curve",
-   assumptions=["same as C01, plus: the base point has order L (OrderExact), L prime, Point.Bytes is canonical and canonical encodings are unique (EncodeCanonical, EncodeDecode)",
+   assumptions=["same as C01, plus: the base point has order L (OrderExact; that L is prime is proved), Point.Bytes is canonical and canonical encodings are unique (EncodeCanonical, EncodeDecode)",
                 "uniqueness beyond the algebraic half is a random-oracle argument, not a theorem"],
    trusted_base=["Lean ECVRF in the driver (Iota/Model/Vrf.lean over Iota/Model/Edwards.lean), validated on the RFC 9381 vectors by agreement with pkg/vrf"]),
 }
